@@ -387,6 +387,7 @@ func (r *FnRun) loopCallEffect(li *loopInfo, c ssa.CallInstruction) {
 											if comps, ok := r.fieldComps(structKey(pt.Elem()), stt, i); ok {
 												for _, c := range comps {
 													li.mems[c.Arr] = true
+													r.noteArrSort(c.Arr, c.Sort)
 												}
 											}
 										}
@@ -441,8 +442,20 @@ func (r *FnRun) markFieldStore(li *loopInfo, fa *ssa.FieldAddr) bool {
 	}
 	for _, c := range comps {
 		li.mems[c.Arr] = true
+		r.noteArrSort(c.Arr, c.Sort)
 	}
 	return true
+}
+
+func (r *FnRun) noteArrSort(name string, s Sort) {
+	root := r
+	for root.parent != nil {
+		root = root.parent
+	}
+	if root.arrSorts == nil {
+		root.arrSorts = map[string]Sort{}
+	}
+	root.arrSorts[name] = s
 }
 
 func (r *FnRun) markMems(li *loopInfo, t types.Type) {
@@ -1617,6 +1630,7 @@ func (r *FnRun) finish() {
 			for _, cl := range c.ByKind("panics_iff") {
 				i++
 				e0 := r.env(r.Entry, r.Entry)
+				e0.nm = o.St
 				r.addGoal(o.St, clauseName("panics_iff", cl, i)+"/returns-only-if-not", "", Not(e0.evalBool(cl.E)), cl.Props)
 			}
 			r.frameGoals(o)
@@ -1631,6 +1645,7 @@ func (r *FnRun) finish() {
 			for _, cl := range c.ByKind("panics_iff") {
 				i++
 				e0 := r.env(r.Entry, r.Entry)
+				e0.nm = o.St
 				r.addGoal(o.St, clauseName("panics_iff", cl, i)+"/panics-only-if", o.Why, e0.evalBool(cl.E), cl.Props)
 			}
 			i = 0
@@ -1646,7 +1661,8 @@ func (r *FnRun) finish() {
 				if len(c.Locks) > 0 {
 					// state protected by a lock may be changed by other threads meanwhile
 					ms = &modSpec{fields: map[string][]Term{}}
-					env := r.env(r.Entry, r.Entry)
+					env := r.lockEnv(o.St)
+					env.nm = o.St
 					for _, l := range c.Locks {
 						r.addProtects(env, l, ms)
 					}
@@ -1661,13 +1677,13 @@ func (r *FnRun) finish() {
 	}
 	// cover: panics_iff condition both ways
 	for i, cl := range c.ByKind("panics_iff") {
-		e0 := r.env(r.Entry, r.Entry)
+		st := r.Entry.clone()
+		e0 := r.env(st, st)
 		e0.assuming = false
 		p := e0.evalBool(cl.E)
 		if p.S == "true" || p.S == "false" {
 			continue // unconditional: nothing to cover
 		}
-		st := r.Entry.clone()
 		r.addGoalRaw(&Goal{Oblig: r.FnName + "/cover." + clauseName("panics_iff", cl, i+1) + ".true", Prefix: appendAssume(st.log, p), Goal: False, Expect: "sat"})
 		r.addGoalRaw(&Goal{Oblig: r.FnName + "/cover." + clauseName("panics_iff", cl, i+1) + ".false", Prefix: appendAssume(st.log, Not(p)), Goal: False, Expect: "sat"})
 	}
